@@ -12,6 +12,11 @@ REQUIRED = [
     "DaeVerif.C09.Props.udp_id_match",
     "DaeVerif.C09.Props.udp_single_call",
     "DaeVerif.C09.Props.udp_flood_discards_socket",
+    "DaeVerif.C09.Props.delivered_matches_waiter",
+    "DaeVerif.C09.Props.ids_in_flight_unique",
+    "DaeVerif.C09.Props.allocate_returns_free_id",
+    "DaeVerif.C09.Props.timeout_closes_connection",
+    "DaeVerif.C09.Props.slot_reuse_cross_delivery_before_fix",
     "DaeVerif.C09.Props.close_once_after_last_use",
     "DaeVerif.C09.Props.retired_forwarder_closed_when_quiescent",
     "DaeVerif.C09.Props.enduse_split_closes_under_new_user",
@@ -25,6 +30,7 @@ STREAMS = [
 ]
 SCHED_STREAMS = [
     ("c09sched", "TestVerifC09Sched"),
+    ("c09pipe", "TestVerifC09Pipe"),
 ]
 
 HOOK_NAMES = [
@@ -113,6 +119,26 @@ def oracle_fwd(ctx, ops, impl, label):
         last = (op, f, im)
 
 
+def oracle_pipe(ctx, ops, impl):
+    """a message returned by RoundTrip carries the id the call wrote and was sent on the call's own
+    connection (the tag encodes the connection the fake upstream sent it on)."""
+    reg = {}
+    for op, im in zip(ops, impl):
+        t = op.split()
+        if t[:2] == ["P", "reset"]:
+            reg = {}
+        elif t[:2] == ["P", "start"] and im == "ok":
+            reg[t[2]] = (int(t[3]), int(t[4]))
+        elif t[:2] == ["P", "take"] and im.startswith("got=msg:"):
+            mid, tag, conn = (int(x) for x in im[len("got=msg:"):].split("."))
+            c, i = reg.get(t[2], (-1, -1))
+            if mid != i or conn != c:
+                ctx.report(f"RoundTrip of waiter {t[2]} (connection {c}, id {i}) returned a message with id {mid} sent on connection {conn}",
+                           {"op": op, "impl": im})
+        if "stuck" in im or "unexpected" in im:
+            ctx.report(f"pipelined connection harness lost track of the real code: {op} -> {im}", {"op": op, "impl": im})
+
+
 def run(ctx):
     ctx.trusted += [
         "sync/atomic, sync.Once, sync.Map, x/sync/singleflight, channels behave as linearizable objects (the models' atomic steps)",
@@ -163,6 +189,8 @@ def run(ctx):
             n_replies = oracle_ctl(ctx, lo, li)
         if name in ("c09fwd", "c09sched"):
             oracle_fwd(ctx, lo, li, name)
+        if name == "c09pipe":
+            oracle_pipe(ctx, lo, li)
         for op, im in zip(lo, li):
             if im.startswith("crash:") or "crash:" in im:
                 ctx.report(f"real code panicked: {im}", {"stream": name, "op": op, "impl": im})
